@@ -1068,7 +1068,7 @@ func runOneCS(c *core.Ctx) {
 		for _, g := range an.RefClosure([]*ssa.Function{fn}, func(f *ssa.Function) bool {
 			return P.InModule(f) && (f == fn || recvTypeName(f) == t || f.Parent() != nil)
 		}) {
-			if len(guardedAccesses(g)) > 0 {
+			if len(guardedAccesses(c, g)) > 0 {
 				touches = true
 			}
 		}
@@ -1098,6 +1098,7 @@ func runOneCS(c *core.Ctx) {
 		}
 		// two acquisitions on one path (or one inside a loop) = two critical sections
 		var twice []string
+		preNote := ""
 		// … also when they sit inside a method of the same receiver this one calls
 		for _, a := range pts {
 			if _, isLock := map[string]bool{"(*sync.RWMutex).Lock": true, "(*sync.Mutex).Lock": true, "(*sync.RWMutex).RLock": true}[an.CalleeName(a.(ssa.CallInstruction).Common())]; isLock {
@@ -1118,11 +1119,21 @@ func runOneCS(c *core.Ctx) {
 					continue
 				}
 				if before(a, b) || (a.Block() != b.Block() && an.Reachable(a.Block(), b.Block(), nil, nil)) {
-					twice = append(twice, P.Pos(a.Pos())+" then "+P.Pos(b.Pos()))
+					// a read-locked pre-check that only rejects what the second section rejects
+					pc := preCheckAt(c, fn, a, b)
+					if pc != nil && pc.why == "" {
+						preNote = fmt.Sprintf("; the acquisition at %s is a read-locked pre-check whose every rejection has a counterpart in the section that follows", P.Pos(a.Pos()))
+						continue
+					}
+					note := ""
+					if pc != nil {
+						note = " [not a harmless pre-check: " + pc.why + "]"
+					}
+					twice = append(twice, P.Pos(a.Pos())+" then "+P.Pos(b.Pos())+note)
 				}
 			}
 		}
-		c.Check(len(pts) >= 1 && len(twice) == 0, guardProps(t), fname(c, fn), "critical-sections", P.Pos(fn.Pos()), fmt.Sprintf("%d acquisition point(s), at most one on any path: the whole operation is one critical section", len(pts)),
+		c.Check(len(pts) >= 1 && len(twice) == 0, guardProps(t), fname(c, fn), "critical-sections", P.Pos(fn.Pos()), fmt.Sprintf("%d acquisition point(s), at most one on any path: the whole operation is one critical section%s", len(pts), preNote),
 			fmt.Sprintf("the operation can pass through two critical sections on one path (%s): a check made under one and acted upon under the next is not atomic — a concurrent operation can run in between, so results need not correspond to any sequential order", strings.Join(twice, "; ")))
 	}
 }
